@@ -450,6 +450,18 @@ theorem exit_zero_or_one (cs : List ContractRun) : mainExit cs = 0 ∨ mainExit 
     · exact Or.inl rfl
     · exact Or.inr rfl
 
+/-- a test that raised (recorded as `Exitcode.EXCEPTION` by `run_tests`) is never a pass: the process exits 1 whenever
+some selected contract has such a result -/
+theorem raising_test_fails_run (cs : List ContractRun) (hw : ∀ c ∈ cs, c.wf) (c : ContractRun) (hc : c ∈ cs)
+    (hf : c.found ≠ 0) (hr : Exitcode.exception ∈ c.results) : mainExit cs = 1 := by
+  have hne : mainExit cs ≠ 0 := (exit_nonzero_iff cs hw ⟨c, hc, hf⟩).mpr
+    ⟨c, hc, hf, fun hp => by have := hp.2 _ hr; cases this⟩
+  rcases exit_zero_or_one cs with h0 | h1
+  · exact absurd h0 hne
+  · exact h1
+
+example : mainExit [⟨3, [.pass, .exception, .pass]⟩] = 1 ∧ (St.verdict { raised := true }) = .exception := by decide
+
 /-- the selected tests as the property sees them: a verdict per test, `none` for a test that never ran -/
 def statuses (cs : List ContractRun) : List (Option Spec.Verdict.Verdict) :=
   (cs.filter (fun c => c.found != 0)).flatMap (fun c =>
